@@ -189,7 +189,15 @@ func TestC08Graveyard(t *testing.T) {
 	dbTest(t, "C08", "TestC08Graveyard", ruleC08, profC08, Options{})
 }
 
-var profC19 = Profile{W: map[int]int{opBegin: 2, opInsert: 2, opDelete: 1, opCommit: 6, opAbort: 4, opRegInit: 6, opMarkDone: 7, opInitWatch: 5, opSnapshot: 1}, TwoTxns: true, MaxMin: 15}
+// multiInitPreamble: ONE transaction completes the last initializer of two
+// tables while channels from Initialized() are retained for both.
+var multiInitPreamble = []Op{
+	{K: opBegin, Ts: []int{0, 1}}, {K: opRegInit, T: 0}, {K: opRegInit, T: 1}, {K: opCommit},
+	{K: opInitWatch, T: 0}, {K: opInitWatch, T: 1},
+	{K: opBegin, Ts: []int{1, 0}}, {K: opMarkDone, H: 0}, {K: opMarkDone, H: 1}, {K: opCommit},
+}
+
+var profC19 = Profile{PreambleOneIn: 4, Preambles: [][]Op{multiInitPreamble}, W: map[int]int{opBegin: 2, opInsert: 2, opDelete: 1, opCommit: 6, opAbort: 4, opRegInit: 6, opMarkDone: 7, opInitWatch: 5, opSnapshot: 1}, TwoTxns: true, MaxMin: 15}
 
 const ruleC19 = "orders of registering and completing up to 4 initializer names per table across committed and aborted transactions mixed with ordinary writes on 1-3 tables; a mark made in an aborted transaction may be repeated later. Checked on every snapshot and inside every transaction: Initialized/PendingInitializers equal the model (committed registrations minus committed marks plus the transaction's own); channels obtained while uninitialized stay open across aborts and incomplete commits, are closed when the completing Commit returns, and whenever found closed (at every hook point in Commit) a fresh snapshot reports the table initialized. Non-trivial = >=2 registrations with an aborted registration or aborted mark in between; distinct by case encoding."
 
